@@ -3,7 +3,7 @@
 
   Model: Kevo.Model.Repl (message level; transition table and constants regenerated from state.go / primary.go into
   Kevo.Gen.Repl). PARTIAL by nature and by the state of the pinned tree:
-  * "within bounded time" is real time; the model gives "finitely many fair rounds" and their number ⌈backlog/limit⌉.
+  * "within bounded time" is real time; the model gives "finitely many fair rounds" and their number ⌈backlog/q⌉ for the guaranteed message size q (1 ≤ q ≤ limit, byte cap).
   * proved: convergence for every history of puts / deletes / single-operation transactions (no shared sequence number),
     whenever and however often the replica connected, lost messages or connections, PROVIDED fresh deliveries keep
     happening (`Fair`). On a stable log object the replica's own reconnect cycle is such a delivery
@@ -55,15 +55,36 @@ theorem converges_under_fairness (acts : List Act) (hcov : ∀ a ∈ acts, a.cov
     rw [h0, this]; exact pollLimit_pos
   exact converges x hq hinv hlim hf
 
-/-- number of rounds: ⌈backlog / limit⌉ fresh deliveries suffice (each one moves the cursor by min(limit, backlog)) -/
-theorem rounds_bound (x : Exec) (hq : Quiescent x) (h0 : Inv (x.w 0)) (hl : 0 < (x.w 0).limit) (t : Nat)
-    (hk : ((x.w 0).log.length + 1 - (x.w 0).ap.exp + (x.w 0).limit - 1) / (x.w 0).limit ≤ freshCount x t) :
-    caughtUp (x.w t) ∧ converged (x.w t) :=
-  Kevo.Proofs.Repl.rounds_bound x hq h0 hl t hk
+/-- `q` entries per message are guaranteed by the response byte cap (`pollBytes`, 8 MiB, regenerated from the source):
+    every window the primary cuts an answer from keeps at least `min q (window length)` entries -/
+abbrev Quantum := Kevo.Proofs.Repl.Quantum
 
-theorem ranking_lower_bound (x : Exec) (hq : Quiescent x) (h0 : Inv (x.w 0)) (t : Nat) :
-    min ((x.w 0).log.length + 1) ((x.w 0).ap.exp + (x.w 0).limit * freshCount x t) ≤ (x.w t).ap.exp :=
-  exp_lower_bound x hq h0 t
+/-- the byte cap never empties an answer: one entry per message is always guaranteed (an entry larger than the whole cap is
+    still sent, alone) -/
+theorem quantum_one (w : World) (hl : 0 < w.limit) : Quantum w 1 := Kevo.Proofs.Repl.quantum_one w hl
+
+/-- a log whose entries together fit the cap is never cut by it: the full poll limit is guaranteed -/
+theorem quantum_limit (w : World) (hs : (w.log.map Entry.size).sum ≤ pollBytes) : Quantum w w.limit :=
+  Kevo.Proofs.Repl.quantum_limit w hs
+
+/-- number of rounds: with `q` entries per message guaranteed, ⌈backlog / q⌉ fresh deliveries suffice (each one moves the
+    cursor by min(q, backlog)); `q = 1` always (`quantum_one`): at most `backlog` rounds whatever the entry sizes;
+    `q = limit` for a log that fits the cap (`quantum_limit`): ⌈backlog / limit⌉ rounds -/
+theorem rounds_bound (x : Exec) (hq : Quiescent x) (h0 : Inv (x.w 0)) (q : Nat) (hl : 0 < q) (hqu : Quantum (x.w 0) q) (t : Nat)
+    (hk : ((x.w 0).log.length + 1 - (x.w 0).ap.exp + q - 1) / q ≤ freshCount x t) :
+    caughtUp (x.w t) ∧ converged (x.w t) :=
+  Kevo.Proofs.Repl.rounds_bound x hq h0 q hl hqu t hk
+
+theorem ranking_lower_bound (x : Exec) (hq : Quiescent x) (h0 : Inv (x.w 0)) (q : Nat) (hqu : Quantum (x.w 0) q) (t : Nat) :
+    min ((x.w 0).log.length + 1) ((x.w 0).ap.exp + q * freshCount x t) ≤ (x.w t).ap.exp :=
+  exp_lower_bound x hq h0 q hqu t
+
+/-- the cap does cut: three entries of 3 MiB each in a log of three — the answer to "from 1" carries two of them
+    (6 MiB ≤ 8 MiB < 9 MiB), the third follows in the next round; an entry of 9 MiB is still sent, alone -/
+example : (selectFrom [{ seq := 1, key := 1, val := some (3145728 * 65536) }, { seq := 2, key := 2, val := some (3145728 * 65536 + 1) },
+    { seq := 3, key := 3, val := some (3145728 * 65536 + 2) }] 1 100).map (·.seq) = [1, 2] := by decide
+example : (selectFrom [{ seq := 1, key := 1, val := some (9437184 * 65536) }, { seq := 2, key := 2, val := some 5 }] 1 100).map (·.seq)
+    = [1] := by decide
 
 /-- safety: once caught up, no protocol or network step (poll, reconnect, stale or duplicated batches, loss) changes the
     replica's view -/
